@@ -77,12 +77,13 @@ def execute_huge(sc):
             with sd.node(r, W):
                 try:
                     s = make(dict(sc, kind="sequential"), 0, None)
-                except ValueError:
+                except Exception as e:  # noqa
                     if mode == "raise" and N % W:
                         res.bump("probe.raise_on_uneven")
                         res.nontrivial = True
                         return res
-                    raise
+                    res.violate("construct.unexpected-raise", f"N={N} W={W} mode={mode}: construction raised {type(e).__name__}: {e}")
+                    return res
                 eff = N - N % W if mode == "drop" else N
                 want = len(range(r, eff, W)) if mode != "ignore" else N
                 try:
@@ -93,7 +94,12 @@ def execute_huge(sc):
                 if got != want:
                     res.violate("len.mismatch", f"rank {r}/{W} over N={N} ({mode}): len() = {got}, the sampler yields {want} indices", mode=mode)
                     return res
-                first = [int(x) for x in itertools.islice(iter(s), 3)]
+                try:
+                    first = [int(x) for x in itertools.islice(iter(s), 3)]
+                except MemoryError:
+                    # an implementation that materialises the epoch cannot be asked for 2**53 indices; not judged
+                    res.bump("probe.huge_iteration_not_judged")
+                    continue
                 exp = list(itertools.islice(range(r, eff, W) if mode != "ignore" else range(N), 3))
                 if first != exp:
                     res.violate("split.sequential-stride", f"rank {r}/{W} over N={N}: first indices {first}, expected {exp}", mode=mode)
@@ -126,7 +132,7 @@ def execute(sc):
                 torch.manual_seed(sc["torch_seed"])  # what a real job does before building loaders
                 try:
                     s = make(sc, sc["init_epoch"][r], sc["base_seed"])
-                except ValueError as e:
+                except Exception as e:  # noqa (the property says "raises", not what)
                     if should_raise:
                         res.bump("probe.raise_on_uneven")
                         res.nontrivial = True
@@ -157,7 +163,10 @@ def execute(sc):
                     s = samplers[r]
                     e = s.epoch
                     L = len(s)
-                    held.setdefault(r, []).append((e, iter(s), L))
+                    it = iter(s)
+                    # an iterator may claim its epoch when it is made (epoch already advanced) or when it
+                    # is first used (the property does not say which): e is then decided at drain time
+                    held.setdefault(r, []).append((e if s.epoch != e else ("lazy", e, s), it, L))
                 res.bump("fault.iterator_held_open")
             elif op[0] == "openpeek":
                 with ctx(r):
@@ -168,6 +177,10 @@ def execute(sc):
                     continue
                 e, it, L = held[r].pop(0)
                 with ctx(r):
+                    if isinstance(e, tuple):
+                        # claims its epoch at first use: the epoch the sampler stands at now
+                        res.bump("probe.iterator_claims_epoch_at_first_use")
+                        e = e[2].epoch
                     if op[2] is None:
                         lst = [int(x) for x in it]
                         if L is not None and L != len(lst):
